@@ -17,8 +17,12 @@ def failing(repo):
     return keys
 base=failing('/repo')
 rows={}
+ONLY=os.environ.get('ONLY','')   # e.g. ONLY=-r9- : re-evaluate only the seeds whose id contains it, keep the other rows
+if ONLY and os.path.exists('/verif/seeded/MATRIX.json'):
+    rows=json.load(open('/verif/seeded/MATRIX.json'))['seeds']
 for d in sorted(glob.glob('/verif/seeded/*/')):
     sid=os.path.basename(d.rstrip('/'))
+    if ONLY and ONLY not in sid: continue
     cj=os.path.join(d,'confirm.json')
     if not os.path.exists(cj): continue
     conf=json.load(open(cj))
@@ -44,6 +48,6 @@ for d in sorted(glob.glob('/verif/seeded/*/')):
 json.dump({'baseline_failing':sorted(base),'seeds':rows},open('/verif/seeded/MATRIX.json','w'),indent=1)
 with open('/verif/seeded/MATRIX.md','w') as f:
     f.write('| seed | confirmed on the repaired tree | rules that fire (new failing obligations) |\n|---|---|---|\n')
-    for sid,r in rows.items():
+    for sid,r in sorted(rows.items()):
         f.write(f"| {sid} | {r['confirmed']} | {', '.join(r['rules']) if r['rules'] else ('(patch does not apply)' if not r['applies'] else 'NONE')} |\n")
 print(open('/verif/seeded/MATRIX.md').read())
